@@ -7,6 +7,8 @@
 //   family=fate   one valid command; the child prints one of several reports, closes its output and then exits 0/100/111 or is
 //                 killed -- explored under every interleaving within the preemption bound (the spawner may see end-of-file on the
 //                 report pipe before the child is dead)
+//   family=reuse  2 (3) deliveries one after the other through the same delivery number, every ordered tuple of child fates: each
+//                 command is sent when the report for the previous one has arrived, so the spawner's slot is really used again
 // Oracle: (1) the spawner itself opens nothing but numerically named paths below queue/mess (and lock/tcpto); (2) a child is started
 // iff the id is numeric, the file is regular and owned by the queue user and the recipient has a host part, and its standard input
 // is that message; (3) every complete command is answered by exactly one report carrying its delivery number, nothing else is
@@ -26,6 +28,7 @@ struct C18S : Scenario {
   const Config &cfg; std::string fam, prog; bool local; std::vector<std::vector<Cmd>> cases; std::vector<Fate> fates; const std::vector<Cmd> *cs = nullptr; std::string stream; size_t complete = 0; const Fate *fate = nullptr;
   int mainpid = 0; std::shared_ptr<Sink> out; int children = 0; std::vector<std::string> child_stdin; std::map<int, int> child_stage; std::map<int, std::string> child_in; std::string casename; bool cut = false;
   std::vector<int> child_delnum_order; int spawnlimit = 120;
+  std::shared_ptr<Pipe> inpipe; std::vector<const Fate *> fateseq; std::map<int, const Fate *> child_fate; size_t sent = 0;   // family=reuse
   C18S(const Config &c) : cfg(c) {
     { std::ifstream f(c.srcdir + "/conf-spawn"); int v = 0; if (f >> v && v > 0 && v < 256) spawnlimit = v; }   // the compiled-in concurrency limit of the tree under test
     fam = c.get("family", "ids"); prog = c.get("prog", "rspawn"); local = prog == "lspawn";
@@ -40,6 +43,8 @@ struct C18S : Scenario {
     } else if (fam == "cut" || fam == "fate") {
       cases.push_back({Cmd{3, "8/123", "s@src.example", okr}, Cmd{4, "8/123", "", okr}});
       if (fam == "fate") cases[0].pop_back();
+    } else if (fam == "reuse") {
+      cases.push_back({Cmd{3, "8/123", "s@src.example", okr}});
     } else if (fam == "multi") {
       std::vector<Cmd> pool = { Cmd{5, "8/123", "s@src.example", okr}, Cmd{5, "8/123", "", okr}, Cmd{6, "8/123", "s@src.example", okr}, Cmd{6, "/123456", "s@src.example", okr}, Cmd{200, "8/123", "s@src.example", okr}, Cmd{7, "8/124", "s@src.example", okr}, Cmd{0, "8/123", "s@src.example", "nohost"} };
       int maxn = c.geti("thorough") ? 4 : 3;
@@ -61,7 +66,10 @@ struct C18S : Scenario {
     if (fam == "cut") { size_t at = choose_big(w, stream.size() + 1); cut = at < stream.size(); size_t pos = 0; complete = 0; for (auto &c : *cs) { pos += enc(c).size(); if (pos <= at) complete++; } stream.resize(at); casename += " cut after byte " + std::to_string(at); }
     fate = &fates[0];
     if (fam == "fate") { fate = &fates[w.ex->choose_n((int) fates.size(), BK_FREE)]; casename += " child " + fate->name; }
-    std::map<int, int> fds; fds[0] = QmailEnv::preloaded_pipe(w, stream); fds[1] = QmailEnv::sink(w, &out); fds[2] = QmailEnv::nullfd(w);
+    if (fam == "reuse") { int n = cfg.geti("seqlen", 2); for (int i = 0; i < n; i++) fateseq.push_back(&fates[w.ex->choose_n((int) fates.size(), BK_FREE)]); casename += " children in turn:"; for (auto f : fateseq) casename += " <" + f->name + ">"; }
+    std::map<int, int> fds;
+    if (fam == "reuse") { int r, wr; k.make_pipe(&r, &wr, 1 << 16); k.ofd_ref(wr); inpipe = k.ofds[wr]->pipe; inpipe->buf += stream; sent = 1; fds[0] = r; }
+    else fds[0] = QmailEnv::preloaded_pipe(w, stream); fds[1] = QmailEnv::sink(w, &out); fds[2] = QmailEnv::nullfd(w);
     std::vector<std::string> av = {"qmail-" + prog}; if (local) av.push_back("./Mailbox");
     mainpid = w.spawn("/var/qmail/bin/qmail-" + prog, av, fds, local ? 0 : UID_QMAILR, local ? 0 : GID_QMAIL, "/");
   }
@@ -70,13 +78,22 @@ struct C18S : Scenario {
   std::string script(World &, Proc &p) override {
     std::string a; int v; auto I = [&](int x) { v = x; a.append((char *) &v, 4); };
     int &st = child_stage[p.vpid];
-    if (st == 0) { st = 1; children++; I(VKA_READALL); I(0); I(VKA_ASK); return a; }
+    if (st == 0) { st = 1; children++; if (fam == "reuse") child_fate[p.vpid] = fateseq[std::min<size_t>(children - 1, fateseq.size() - 1)]; I(VKA_READALL); I(0); I(VKA_ASK); return a; }
     child_stdin.push_back(child_in[p.vpid]);
+    const Fate *fate = this->fate; if (fam == "reuse") fate = child_fate[p.vpid];
     if (!fate->output.empty()) { I(VKA_WRITE); I(1); I((int) fate->output.size()); a += fate->output; }
     I(VKA_CLOSE); I(1); I(VKA_CLOSE); I(2);
     if (fate->sig) { I(VKA_KILLSELF); I(fate->sig); } else { I(VKA_EXIT); I(fate->exitcode); }
     return a;
   }
+  size_t reports_in(const std::string &o) { size_t n = 0, i = 1; while (i < o.size()) { size_t z = o.find('\0', i + 1); if (z == std::string::npos) break; n++; i = z + 1; } return n; }
+  bool on_quiescent(World &w) override {
+    (void) w; if (fam != "reuse" || !inpipe) return false;
+    if (reports_in(out->data) < sent) { inpipe->writers = 0; inpipe.reset(); return true; }   // no report for the last command: end the input, at_end reports it
+    if (sent < fateseq.size()) { inpipe->buf += stream; sent++; return true; }
+    inpipe->writers = 0; inpipe.reset(); return true;
+  }
+  void on_proc_exit(World &, Proc &p) override { child_stage.erase(p.vpid); child_in.erase(p.vpid); child_fate.erase(p.vpid); }   // process ids are used again
   int faults_hit = 0;
   void alternatives(World &w, Proc &p, const Req &r, std::vector<Alt> &a) override {
     if (w.ex->bound[BK_FAULT] <= 0 || p.vpid != mainpid) return;
@@ -105,6 +122,17 @@ struct C18S : Scenario {
     // reports: delnum, text without NUL, NUL
     std::vector<std::pair<int, std::string>> reps; size_t i = 1;
     while (i < o.size()) { int dn = (unsigned char) o[i++]; size_t z = o.find('\0', i); if (z == std::string::npos) { w.soft_violation(key, casename + ": unterminated report at the end of the output: [" + esc(o.substr(i - 1), 80) + "]"); return; } reps.push_back({dn, o.substr(i, z - i)}); i = z + 1; }
+    if (fam == "reuse") {
+      if (reps.size() != fateseq.size()) { w.soft_violation(key, casename + ": " + std::to_string(reps.size()) + " reports for " + std::to_string(fateseq.size()) + " deliveries: [" + esc(o.substr(1), 200) + "]"); return; }
+      if (children != (int) fateseq.size()) { w.soft_violation(key, casename + ": " + std::to_string(children) + " delivery programs were started for " + std::to_string(fateseq.size()) + " commands"); return; }
+      for (size_t i = 0; i < reps.size(); i++) { char want = local ? fateseq[i]->want_l : fateseq[i]->want_r;
+        if (reps[i].first != (*cs)[0].delnum || reps[i].second.empty() || reps[i].second[0] != want) { w.soft_violation("C09:relay-after-reuse:" + prog + ":" + std::to_string(i + 1) + ":" + fateseq[i]->name, casename + ": delivery " + std::to_string(i + 1) + " through number " + std::to_string((*cs)[0].delnum) + " is reported as " + std::to_string(reps[i].first) + " [" + esc(reps[i].second, 80) + "], expected status " + std::string(1, want) + " (the verdict of this child alone)"); return; }
+        // the text after the status letter is what this child said, not what an earlier user of the slot said
+        if (i > 0 && fateseq[i]->output != fateseq[i - 1]->output && reps[i].second.size() > 1 && reps[i].second == reps[i - 1].second && want != (local ? fateseq[i - 1]->want_l : fateseq[i - 1]->want_r)) { w.soft_violation("C09:stale-report-text:" + prog, casename + ": the report of delivery " + std::to_string(i + 1) + " repeats the previous one"); return; }
+        w.counters[std::string("verdict_") + want]++; }
+      w.counters["slot_reuses"] += fateseq.size() - 1; w.counters["reports_checked"] += reps.size(); w.counters["children_started"] += children;
+      w.outcome_hash = fnvs(fnvs(11, casename), o); w.description = casename + " -> [" + esc(o.substr(1), 80) + "]"; return;
+    }
     if (reps.size() != complete) { w.soft_violation(key, casename + ": " + std::to_string(reps.size()) + " reports for " + std::to_string(complete) + " complete commands: [" + esc(o.substr(1), 200) + "]"); return; }
     // each command's delivery number is answered (as a multiset)
     { std::multiset<int> want, got; for (size_t c = 0; c < complete; c++) want.insert((*cs)[c].delnum); for (auto &r : reps) got.insert(r.first); if (want != got) { w.soft_violation(key, casename + ": the reports do not carry the delivery numbers of the commands: [" + esc(o.substr(1), 200) + "]"); return; } }
